@@ -1352,3 +1352,112 @@ RECIPES += (
             if m[:, col].any():''', '''        for col, column in enumerate(m.T):
             if column.any():''', "wtdmig: columns by enumerate(m.T)")]
 )
+
+# ---- obligations added in the second pass: card order of the GRID vectors, non-zero DMIG terms are never skipped
+RECIPES += [
+    ("C13", "break", ["C13-R1"], B, '''            string = "GRID    {:8d}{:8d}" + form * 3 + "{:8d}\\n"
+        writer.vecwrite(f, string, grids, cp, xyz[:, 0], xyz[:, 1], xyz[:, 2], cd)''', '''            string = "GRID    {:8d}{:8d}" + form * 3 + "{:8d}\\n"
+        writer.vecwrite(f, string, grids, cp, xyz[:, 1], xyz[:, 0], xyz[:, 2], cd)''', "wtgrids: x and y columns exchanged"),
+    ("C13", "break", ["C13-R1"], B, '''        writer.vecwrite(
+            f, string, grids, cp, xyz[:, 0], xyz[:, 1], xyz[:, 2], cd, ps, seid
+        )''', '''        writer.vecwrite(
+            f, string, grids, cd, xyz[:, 0], xyz[:, 1], xyz[:, 2], cp, ps, seid
+        )''', "wtgrids: cp and cd exchanged"),
+    ("C13", "neutral", [], B, '''    if ps == seid == "":
+        if len(teststr) > 8:
+            string = (
+                "GRID*   {:16d}{:16d}" + form * 2 + "\\n*       " + form + "{:16d}\\n"
+            )
+        else:
+            string = "GRID    {:8d}{:8d}" + form * 3 + "{:8d}\\n"
+        writer.vecwrite(f, string, grids, cp, xyz[:, 0], xyz[:, 1], xyz[:, 2], cd)''', '''    x, y, z = xyz.T
+    if ps == seid == "":
+        if len(teststr) > 8:
+            string = (
+                "GRID*   {:16d}{:16d}" + form * 2 + "\\n*       " + form + "{:16d}\\n"
+            )
+        else:
+            string = "GRID    {:8d}{:8d}" + form * 3 + "{:8d}\\n"
+        writer.vecwrite(f, string, grids, cp, x, y, z, cd)''', "wtgrids: coordinate columns unpacked from xyz.T"),
+    ("C13", "break", ["C13-R3"], B, '''                    if num != 0.0:
+                        gi, ci = rowids[row]''', '''                    if num == 0.0:
+                        gi, ci = rowids[row]''', "wtdmig: only the zero terms are written"),
+    ("C13", "break", ["C13-R3"], B, '''                    if num != 0.0:
+                        gi, ci = rowids[row]''', '''                    if num > 0.0:
+                        gi, ci = rowids[row]''', "wtdmig: negative terms are skipped"),
+    ("C13", "neutral", [], B, '''                    if num != 0.0:
+                        gi, ci = rowids[row]''', '''                    if not num == 0:
+                        gi, ci = rowids[row]''', "wtdmig: zero test as `not num == 0`"),
+]
+
+# ---- DMIG card layout: the fields rddmig takes are the fields wtdmig writes
+_RDDMIG_TERMS = '''                rowids = c[j][4::4]
+                rowdofs = c[j][5::4]
+                reals = c[j][6::4]
+                if mtype < 3:
+                    for nid, dof, real in zip(rowids, rowdofs, reals):
+                        ri = np.searchsorted(r_id_dof, nid * 10 + dof)
+                        mat[ri, ci] = real
+                        if form == 6:
+                            mat[ci, ri] = real
+                else:
+                    imags = c[j][7::4]
+                    for nid, dof, real, imag in zip(rowids, rowdofs, reals, imags):
+                        val = real + 1j * imag
+                        ri = np.searchsorted(r_id_dof, nid * 10 + dof)
+                        mat[ri, ci] = val
+                        if form == 6:
+                            mat[ci, ri] = val
+'''
+
+RECIPES += (
+    _pair('''                card = c[j]
+                if mtype < 3:
+                    for k in range(4, len(card) - 2, 4):
+                        nid, dof, real = card[k : k + 3]
+                        ri = np.searchsorted(r_id_dof, nid * 10 + dof)
+                        mat[ri, ci] = real
+                        if form == 6:
+                            mat[ci, ri] = real
+                else:
+                    for k in range(4, len(card) - 3, 4):
+                        nid, dof, real, imag = card[k : k + 4]
+                        val = real + 1j * imag
+                        ri = np.searchsorted(r_id_dof, nid * 10 + dof)
+                        mat[ri, ci] = val
+                        if form == 6:
+                            mat[ci, ri] = val
+''', '''                card = c[j]
+                if mtype < 3:
+                    for k in range(4, len(card) - 2, 4):
+                        nid, dof, real = card[k : k + 3]
+                        ri = np.searchsorted(r_id_dof, nid * 10 + dof)
+                        mat[ri, ci] = real
+                        if form == 6:
+                            mat[ci, ri] = real
+                else:
+                    for k in range(4, len(card) - 3, 4):
+                        nid, dof, imag, real = card[k : k + 4]
+                        val = real + 1j * imag
+                        ri = np.searchsorted(r_id_dof, nid * 10 + dof)
+                        mat[ri, ci] = val
+                        if form == 6:
+                            mat[ci, ri] = val
+''', _RDDMIG_TERMS, ["C13-R3"], "rddmig: the terms of a column card taken group by group (range with stride 4, unpacked slice)", "real and imaginary field exchanged")
+    + [("C13", "break", ["C13-R3"], B, _RDDMIG_TERMS, _RDDMIG_TERMS.replace("rowdofs = c[j][5::4]", "rowdofs = c[j][6::4]"), "rddmig: row dof read from the field of the real part"),
+       ("C13", "break", ["C13-R3"], B, _RDDMIG_TERMS, _RDDMIG_TERMS.replace("imags = c[j][7::4]", "imags = c[j][7::3]"), "rddmig: imaginary parts read with a stride of 3"),
+       ("C13", "break", ["C13-R3"], B, _RDDMIG_TERMS, _RDDMIG_TERMS.replace("ri = np.searchsorted(r_id_dof, nid * 10 + dof)\n                        mat[ri, ci] = real",
+                                                                         "ri = np.searchsorted(r_id_dof, nid * 100 + dof)\n                        mat[ri, ci] = real"),
+        "rddmig: row key formed as 100 * id + dof (the index keys are 10 * id + dof)"),
+       ("C13", "break", ["C13-R3"], B, '''                        f.write(f"{'*':<8s}{gi:16d}{ci:16d}{num_str:s}\\n")''', '''                        f.write(f"{'*':<8s}{ci:16d}{gi:16d}{num_str:s}\\n")''',
+        "wtdmig: row dof written before the row grid"),
+       ("C13", "break", ["C13-R3"], B, '''                        f.write(f"{'*':<8s}{gi:16d}{ci:16d}{num_str:s}\\n")''', '''                        f.write(f"{'*':<8s}{gi:16d}{ci:8d}{num_str:s}\\n")''',
+        "wtdmig: a term line with an 8-character field among 16-character fields"),
+       ("C13", "break", ["C13-R3"], B, '''                nid, dof = c[j][1:3]
+                if form != 9:
+                    nid = nid * 10 + dof
+                ci = np.searchsorted(c_id_dof, nid)''', '''                nid, dof = c[j][2:4]
+                if form != 9:
+                    nid = nid * 10 + dof
+                ci = np.searchsorted(c_id_dof, nid)''', "rddmig: column grid / dof read one field late")]
+)
